@@ -122,3 +122,79 @@ func genDedupProbe(r *rand.Rand, u *gen.Universe) *gen.Op {
 	}
 	return &gen.Op{Query: q, Tags: tags}
 }
+
+// genNodeSpanProbe builds a root node(id:) selection with member fragments on two entity types
+// T and T2 where the service owning T2's field does not declare T at all: that service answers
+// `node: null` for an id of T while T's own service answers the object, so two root steps
+// answer the same response key with a null and an object.
+func genNodeSpanProbe(r *rand.Rand, cu *cachedUni, idStyle, pool int) *gen.Op {
+	u := cu.u
+	declares := func(svc int, t string) bool {
+		if svc < 0 || svc >= len(cu.spec.Services) {
+			return true
+		}
+		return strings.Contains(cu.spec.Services[svc].SDL, "type "+t+" ")
+	}
+	leaf := func(t *gen.TypeDef, owner int) *gen.Field {
+		var out []*gen.Field
+		for _, f := range t.Fields {
+			if f.Name == "id" || (owner >= 0 && f.Owner != owner) {
+				continue
+			}
+			req := false
+			for _, a := range f.Args {
+				if strings.HasSuffix(a.Type, "!") && a.Default == "" {
+					req = true
+				}
+			}
+			if tt := u.Type(gen.BaseName(f.Type)); req || (tt != nil && tt.Kind != gen.KEnum && tt.Kind != gen.KScalar) {
+				continue
+			}
+			out = append(out, f)
+		}
+		if len(out) == 0 {
+			return nil
+		}
+		return out[r.Intn(len(out))]
+	}
+	type cand struct {
+		t, t2  *gen.TypeDef
+		f1, f2 *gen.Field
+	}
+	var cands []cand
+	for _, t := range u.Types {
+		if t.Kind != gen.KEntity {
+			continue
+		}
+		f1 := leaf(t, -1)
+		if f1 == nil {
+			continue
+		}
+		for _, t2 := range u.Types {
+			if t2.Kind != gen.KEntity || t2 == t {
+				continue
+			}
+			for _, f2 := range t2.Fields {
+				if f2.Name == "id" || declares(f2.Owner, t.Name) || f2.Owner == f1.Owner {
+					continue
+				}
+				if lf := leaf(&gen.TypeDef{Fields: []*gen.Field{f2}}, -1); lf != nil {
+					cands = append(cands, cand{t, t2, f1, f2})
+				}
+			}
+		}
+	}
+	if len(cands) == 0 {
+		return nil
+	}
+	c := cands[r.Intn(len(cands))]
+	if pool <= 0 {
+		pool = 3
+	}
+	id := gen.MakeIDStyle(idStyle, c.t.Name, r.Intn(pool))
+	a, b := "... on "+c.t.Name+" { "+c.f1.Name+" }", "... on "+c.t2.Name+" { "+c.f2.Name+" }"
+	if r.Intn(2) == 0 {
+		a, b = b, a
+	}
+	return &gen.Op{Query: "{ node(id: \"" + id + "\") { " + a + " " + b + " } }", Tags: []string{"probe:node-span"}}
+}
